@@ -100,6 +100,18 @@ pub fn std_sweep(tier: Tier, flavor: Flavor) -> Vec<Part> {
         family: gen::es_f(tier.pick(2, 3)),
         cfgs: gen::cfgs(&[ALL_MODES, 1, NO_ASCII], &[d], &both, &both),
     });
+    // ES-K: every symbol as a single-symbol list (and as the largest of a two-symbol list) at its
+    // capacity boundaries
+    for si in 0..48 {
+        let c = crate::refmodel::symbols::SYMBOLS[si].data;
+        if c > 204 && tier == Tier::Quick && !matches!(c, 1558 | 1304 | 280) {
+            continue;
+        }
+        let single = ListMask::single(si);
+        let pair = ListMask::of(&[gen::idx(10, 10), si]);
+        parts.push(Part { name: "ES-K capacity boundaries of a single symbol", family: gen::es_k(c), cfgs: gen::cfgs(&[ALL_MODES], &[single, pair], &on, &off) });
+    }
+    parts.push(Part { name: "ES-J2 long runs + EDIFACT middle + suffix", family: gen::es_j2(), cfgs: gen::cfgs(&[ALL_MODES, 0x31], &[d], &on, &off) });
     parts.push(Part {
         name: "ES-F2 macro token sequences",
         family: gen::es_f_tokens(tier.pick(4, 5)),
